@@ -742,3 +742,82 @@ def c14_r13(ctx):
                 any("OPERATION_TYPE" in i.replace("'OperationType'", "OPERATION_TYPE") and ("GRAPHQL_MODULE" in i or "'graphql'" in i) for i in imps)
         ctx.check(good, key(cm, f"async={asy}"), f"[async client={asy}] the entry point must be built by the {'async' if asy else 'sync'} builder with (name, operation_type), appended to the class, and OperationType imported: "
                   f"{[o.text()[:140] for o in outs][:1]}", cm.loc(), okmsg=f"async={asy}: entry point built by the matching builder, appended, OperationType imported")
+
+
+BO_ = "client_generators.dependencies.base_operation:"
+
+
+@rule("C14.R14", "the runtime builder turns a field object into exactly: its (aliased) name, one argument per formatted variable bound to that variable, its sub-selections and inline fragments",
+      min_instances=8, also=["C04"])
+def c14_r14(ctx):
+    repo = ctx.repo
+    ga = repo.func(BO_ + "GraphQLArgument.to_ast")
+    outs = [o for o in Interp(ga, lambda e: None).run() if o.kind == "return"]
+    ctx.check(bool(outs) and all(norm(strip_pre(o.value)) == "ArgumentNode(name=NameNode(value=self._name), value=VariableNode(name=NameNode(value=self._value)))" for o in outs), key(ga, "argument"),
+              f"an argument must be `<name>: $<variable>`: {[o.text()[:140] for o in outs]}", ga.loc(), okmsg="argument -> ArgumentNode(name, VariableNode(variable name))")
+    gi = repo.cls(BO_ + "GraphQLArgument").methods["__init__"]
+    st = {norm(s_.targets[0]): norm(s_.value) for s_ in ast.walk(gi.node) if isinstance(s_, ast.Assign)}
+    ps = real_params(gi)
+    ctx.check(st.get("self._name") == ps[0] and st.get("self._value") == ps[1], key(gi, "stores"), f"GraphQLArgument stores {st}", gi.loc(), okmsg="GraphQLArgument keeps (name, variable name)")
+    fi = repo.func(BO_ + "GraphQLField.to_ast")
+    eff = lambda c: norm(c.func) == "self._collect_all_variables"
+    for sub, inl in ((True, False), (False, True), (False, False)):
+        def atom(e, sub=sub, inl=inl):
+            t = norm(strip_pre(e))
+            if t == "used_names is None":
+                return True
+            if t == "self._subfields":
+                return sub
+            if t == "self._inline_fragments":
+                return inl
+            return None
+        it = Interp(fi, atom, is_effect=eff)
+        outs = [o for o in it.run() if o.kind == "return"]
+        good = bool(outs)
+        for o in outs:
+            effs = [norm(strip_pre(e)) for e in o.effects]
+            good = good and effs in (["self._collect_all_variables(idx=idx, used_names=set())"], ["self._collect_all_variables(idx, set())"], ["self._collect_all_variables(idx=idx, used_names=used_names)"])
+            v = strip_pre(it._simp(subst(o.value, o.env, deep=True), o.env))
+            good = good and isinstance(v, ast.Call) and dotted(v.func) == "FieldNode"
+            if good:
+                nm, ar, ss = kw(v, "name"), kw(v, "arguments"), kw(v, "selection_set")
+                good = nm is not None and norm(nm) == "NameNode(value=self._build_field_name())"
+                cs = comp_struct(strip_pre(ar)) if ar is not None else None
+                good = good and cs is not None and cs[0] in ("GraphQLArgument(argument_name=$0_1['name'], argument_value=$0_0).to_ast()", "GraphQLArgument($0_1['name'], $0_0).to_ast()") and \
+                    [(str(a), list(map(str, b))) for a, b in cs[1]] == [("self.formatted_variables.items()", [])]
+                ss_t = norm(strip_pre(ss)) if ss is not None else "None"
+                want_ss = "SelectionSetNode(selections=self._build_selections(idx=idx, used_names=set()))" if (sub or inl) else "None"
+                good = good and ss_t in (want_ss, want_ss.replace("idx=idx, used_names=set()", "idx, set()"), want_ss.replace("used_names=set()", "used_names=used_names"))
+        ctx.check(good, key(fi, f"subfields={sub} inline={inl}"), f"[sub-fields={sub}, inline fragments={inl}] to_ast gives {[o.text()[:200] for o in outs][:1]}; expected variables collected first, then "
+                  "FieldNode(name=<built name>, arguments=[one per formatted variable: original name -> unique variable], selection_set iff there is something to select)", fi.loc(),
+                  okmsg=f"sub-fields={sub} inline={inl}: FieldNode(name, arguments per variable, selection set {'present' if sub or inl else 'None'})")
+    bs = repo.func(BO_ + "GraphQLField._build_selections")
+    outs = [o for o in Interp(bs, lambda e: None).run() if o.kind == "return" and any("loop body once" in t for t in o.trace)]
+    good = bool(outs)
+    for o in outs:
+        nm = o.value.id if isinstance(o.value, ast.Name) else None
+        base = strip_pre(o.deref(o.value)) if nm else strip_pre(o.value)
+        ms = [norm(strip_pre(m)) for m in (o.muts(nm) if nm else [])]
+        cs = comp_struct(base) if isinstance(base, (ast.ListComp,)) else None
+        good = good and cs is not None and cs[0] in ("$0.to_ast(idx=idx, used_names=used_names)", "$0.to_ast(idx, used_names)") and [(str(a), list(map(str, b))) for a, b in cs[1]] == [("self._subfields", [])]
+        el = "<elem>(self._inline_fragments.items())"
+        good = good and any(m.startswith(f"{nm}.append(InlineFragmentNode(type_condition=NamedTypeNode(name=NameNode(value={el}[0])), selection_set=SelectionSetNode(selections=[") and
+                            f" in {el}[1]]" in m and ".to_ast(" in m for m in ms)
+    ctx.check(good, key(bs, "selections"), f"selections must be every sub-field (in order) followed by one `... on <Type> {{ ... }}` per inline fragment with that fragment's own sub-fields: {[o.text()[:200] for o in outs][:1]}",
+              bs.loc(), okmsg="selections = sub-fields + one inline fragment node per type with its own sub-fields")
+    al = repo.func(BO_ + "GraphQLField.alias")
+    outs = Interp(al, lambda e: None, is_effect=lambda c: is_name(c.func, "<setattr>")).run()
+    ctx.check(bool(outs) and all(o.kind == "return" and is_name(strip_pre(o.value), "self") and [norm(strip_pre(e)) for e in o.effects] == [f"<setattr>(self, '_alias', {real_params(al)[0]})"] for o in outs),
+              key(al, "alias"), f"alias() must store the alias and return the field: {[o.text()[:100] for o in outs]}", al.loc(), okmsg="alias(): stores, returns self")
+    init = repo.cls(BO_ + "GraphQLField").methods["__init__"]
+    st = {}
+    for s_ in ast.walk(init.node):
+        if isinstance(s_, ast.Assign):
+            st[norm(s_.targets[0])] = norm(s_.value)
+        elif isinstance(s_, ast.AnnAssign) and s_.value is not None:
+            st[norm(s_.target)] = norm(s_.value)
+    ps = real_params(init)
+    want = {"self._field_name": ps[0], "self._subfields": "[]", "self._alias": "None", "self._inline_fragments": "{}", "self.formatted_variables": "{}"}
+    good = all(st.get(k) == v for k, v in want.items()) and st.get("self._variables") in (f"{ps[1]} or {{}}", f"{ps[1]} if {ps[1]} is not None else {{}}", f"dict({ps[1]} or {{}})")
+    ctx.check(good, key(init, "fresh state"), f"a new field object must start with its own name, the given arguments (or none), no sub-fields, no alias, no inline fragments: {st}", init.loc(),
+              okmsg="GraphQLField(): own name and arguments, everything else empty and per instance")
